@@ -38,6 +38,13 @@ A *case* is a history: a list of steps
                                         (forces recycling of palette ids)
   ['churn_nocolor', obj, seed, rounds]  per round a brand-new palette class: coloured rendering under a
                                         throw-away config, then the no_color rendering (clause 2)
+  ['fmt', obj_name, fmt]                table.fmt = fmt  (the fmt setter of the persistent PPTable; an empty
+                                        columns / lines part of `fmt` keeps that part of the current format)
+  ['rmcols', obj_name, [names]]         table.remove_columns(names)
+The format is part of the object: after such steps the "freshly constructed equal object" of clause 4 is
+a never rendered twin - constructed in the same way and given the same format changes, in the same order,
+with no rendering before or in between (so nothing negotiated by a rendering under an earlier format -
+column widths are negotiated from the visible records - can be carried into it).
 The oracles are independent of the code under test: an own SGR scanner (strip_all / runs) and the
 metamorphic reference "fresh equal object under fresh equal configuration", which is rendered in a
 process forked from the pristine interpreter state (RefServer), so that state kept in classes or
@@ -565,6 +572,98 @@ def _member(name):
     return build
 
 
+# ---- tables whose records limit hides records with LONGER values than the visible ones (column widths
+# are negotiated from the visible records only).  Their format is changed between renderings ('fmt' /
+# 'rmcols' steps), e.g. the limit is lifted while the columns are kept (fmt with an empty columns part).
+
+_LIM_FIELDS = ['id', 'name', 'status']
+_LIM_RECORDS = [
+    (1, "a", 10), (2, "b", 999), (3, "a much longer name", 5), (4, "c", 1234), (123456, "dd", 10),
+    (6, "another, even longer name of a user", None), (7, "e", 20), (8, "f", 10),
+]
+
+
+def _ltable(enum=False, **kw):
+    def build():
+        types_ = {'fields_types': {'status': _enum()}} if enum else {}
+        return PPTable(list(_LIM_RECORDS), fields=list(_LIM_FIELDS), **types_, **kw)
+    return build
+
+
+# name -> (builder, has enum column, (n_first, n_last) of the initial format, fields shown in plain
+#          columns of negotiable width, initial format has a break-by column)
+LIMITED = {
+    'ltable_head': (_ltable(fmt="id,name;1:0"), False, (1, 0), ['id', 'name'], False),
+    'ltable_enum': (_ltable(True, fmt="id, name:1-30, status/full;1:1", header="Users"), True, (1, 1),
+                    ['id', 'name'], False),
+    'ltable_kw': (_ltable(limits=(2, 1)), False, (2, 1), ['id', 'name', 'status'], False),
+    'ltable_break': (_ltable(True, fmt="status!, name, id:1-4;2:0"), True, (2, 0), ['name'], True),
+}
+# new values of table.fmt.  Generic ones (any table): the columns part is empty (columns are kept) or '*'
+GENERIC_FMTS = [';*', ';5:5', ';2:2', ';0:1', ';1:0', ';3:0', ';;', '', ';', '*', '*;*', '*;1:1']
+NAMED_FMTS = ['name,id', 'name:2-6;*', 'id:3,name!;4:0', 'name,id,name:0-5;*']       # fields id, name
+ENUM_FMTS = ['status/name,id;*', 'status/val:1-2,name']                             # + an enum field status
+SECOND_FMTS = [';*', ';1:0']
+GENERIC_FMTS_QUICK = [';*', ';2:2', ';1:0', '', '*', '*;1:1']      # for the tables which are not limited ones
+
+
+def fmts_of(name):
+    if name not in LIMITED:
+        return list(GENERIC_FMTS)
+    return GENERIC_FMTS + NAMED_FMTS + (ENUM_FMTS if LIMITED[name][1] else [])
+
+
+def apply_change(table, change):
+    """one change of the format of a table: ['fmt', text] or ['rmcols', names]; -> None, or the text of
+    the exception (code under test may raise anything)"""
+    if change[0] not in ('fmt', 'rmcols'):
+        raise ValueError(f"unknown format change {change!r}")
+    try:
+        if change[0] == 'fmt':
+            table.fmt = change[1]
+        else:
+            table.remove_columns(list(change[1]))
+    except Budget:
+        raise
+    except Exception as e:      # noqa
+        return f"{type(e).__name__}: {e}"
+    return None
+
+
+# -- what the driver itself knows about the records shown by a limited table (for reach events only;
+# from the documented meaning of the fmt string: 'columns;n_first:n_last', '' = keep, '*' = all)
+
+def limits_after(fmt, cur):
+    parts = fmt.split(';')
+    lines = parts[1].strip() if len(parts) > 1 else ''
+    if lines == '':
+        return cur
+    if lines == '*':
+        return (None, None)
+    a, b = lines.split(':')
+    return (int(a), int(b))
+
+
+def shown_records(nrec, limits):
+    """indexes of the records shown under (n_first, n_last), table without break lines"""
+    nf, nl = limits
+    if nf is None or nl is None or nrec <= nf + nl + 1:
+        return set(range(nrec))
+    return set(range(nf)) | set(range(nrec - nl, nrec))
+
+
+def wider_record_revealed(fields, before, after):
+    """a record shown now but not before has, in one of `fields`, a longer text than the field's title
+    and every record shown before"""
+    for f in fields:
+        i = _LIM_FIELDS.index(f)
+        old = max([len(f)] + [len(str(_LIM_RECORDS[k][i])) for k in before if _LIM_RECORDS[k][i] is not None])
+        new = [len(str(_LIM_RECORDS[k][i])) for k in after - before if _LIM_RECORDS[k][i] is not None]
+        if new and max(new) > old:
+            return True
+    return False
+
+
 # name -> (kind, builder, has_enum_column)
 OBJECTS = {
     'pp_py': ('pp', _pp(_PP_PY), False),
@@ -603,10 +702,15 @@ OBJECTS = {
 }
 for _n, (_g, _i) in GROUP_OF.items():
     OBJECTS[_n] = ('table', _member(_n), _g == 'enum_pair')
+RANDOM_POOL = list(OBJECTS)          # the objects of the random histories (C) - the limited tables below
+                                     # have random histories of their own (D)
+for _n, _m in LIMITED.items():
+    OBJECTS[_n] = ('table', _m[0], _m[1])
 OBJECT_NAMES = list(OBJECTS)
+TABLE_NAMES = [n for n in OBJECT_NAMES if OBJECTS[n][0] == 'table']
 GROUP_MEMBERS = {g: sorted((n for n in GROUP_OF if GROUP_OF[n][0] == g), key=lambda n: GROUP_OF[n][1])
                  for g in GROUP_BUILDERS}
-ENUM_OBJECTS = [n for n in OBJECT_NAMES if OBJECTS[n][2]]
+ENUM_OBJECTS = [n for n in RANDOM_POOL if OBJECTS[n][2]]
 CHURN_OBJECTS = [n for n in ENUM_OBJECTS if n not in GROUP_OF]
 
 
@@ -943,7 +1047,8 @@ def _render_help(handle, conf, spec, route, no_color):
 # memory kept in classes / module globals cannot leak into the reference
 
 def _reference(req):
-    name, spec, route, regs = req
+    name, spec, route, regs = req[:4]
+    changes = req[4] if len(req) > 4 else []
     sys.stdout, sys.stderr = io.StringIO(), io.StringIO()
     kind, builder, _ = OBJECTS[name]
     akc.set_global_colors_config(None)
@@ -952,6 +1057,8 @@ def _reference(req):
         PALETTES[n].register_in_colors_conf(fresh)
     sig = map_signature(fresh)
     handle = builder()
+    for ch in changes:                  # the never rendered twin gets the same format changes
+        apply_change(handle, ch)
     ctx = as_global(fresh) if route == 'global' else contextlib.nullcontext()
     with ctx:
         col = render(kind, handle, fresh, spec, route, False, None)
@@ -1219,10 +1326,13 @@ def clause_3_again(where, tag, has_enum, x):
     return out
 
 
-def clause_4(name, has_enum, spec, route, tag, got, want):
+def clause_4(name, has_enum, spec, route, tag, got, want, changes=()):
     if got.key() == want.key():
         return []
     where = f"object {name} via {route} ({tag}) under ColorsConfig({json.dumps(spec['init'], sort_keys=True)})"
+    if changes:
+        where = f"object {name} after the format changes {json.dumps(list(changes))} via {route} ({tag}) under " \
+                f"ColorsConfig({json.dumps(spec['init'], sort_keys=True)})"
     if got.exc or want.exc:
         return [('history_independent', 'raises',
                  f"{where}: after the history -> {got.exc or 'ok'}, fresh object + fresh configuration -> {want.exc or 'ok'}")]
@@ -1231,6 +1341,8 @@ def clause_4(name, has_enum, spec, route, tag, got, want):
         key = 'enum-column-stale-colours'
     elif same_text:
         key = 'colours-differ'
+    elif changes:
+        key = 'text-differs-after-format-change'
     else:
         key = 'text-differs'
     a, b = got.whole, want.whole
@@ -1240,7 +1352,8 @@ def clause_4(name, has_enum, spec, route, tag, got, want):
                 a, b = str(getattr(got, f)), str(getattr(want, f))
                 break
     return [('history_independent', key,
-             f"{where}: rendering after the history != rendering of a fresh equal object under a fresh equal "
+             f"{where}: rendering after the history != rendering of a fresh equal object "
+             f"{'(never rendered, given the same format changes) ' if changes else ''}under a fresh equal "
              f"configuration; {first_diff(a, b)}")]
 
 
@@ -1265,6 +1378,10 @@ class Runner:
         self.n_drop = 0
         self.enum_rendered = False
         self.step = 0
+        self.changes = {}        # object name -> the format changes applied to the object so far
+        self.changed_after_render = set()     # tables whose format was changed after a rendering
+        self.shown = {}          # limited table -> [limits in force, records shown by its last rendering
+                                 #                   or None, a wider hidden record is to be revealed]
 
     # ---- bookkeeping
     def track(self, p):
@@ -1287,6 +1404,15 @@ class Runner:
             else:
                 self.objs[name] = OBJECTS[name][1]()
         return self.objs[name]
+
+    def limited_state(self, name):
+        """what the driver knows about a limited table whose columns are still those of its initial format
+        (no break-by column): [limits, records shown by the last rendering, reveal pending]; else None"""
+        if name not in LIMITED or LIMITED[name][4]:
+            return None
+        if name not in self.shown:
+            self.shown[name] = [LIMITED[name][2], None, False]
+        return self.shown[name]
 
     def add(self, res, ctx):
         for clause, key, text in res:
@@ -1312,7 +1438,8 @@ class Runner:
         if name in ('etable_all', 'etable_two') and not col.exc:
             self.hits['two-enum-columns-share-sub-palette'] += 1
         res = clauses_1_2_3(name, has_enum, spec, route, col, noc)
-        ref = self.server.request((name, spec, route, regs))
+        changes = list(self.changes.get(name, ()))
+        ref = self.server.request((name, spec, route, regs, changes))
         if 'error' in ref:
             self.diags.append(f"reference rendering of {name} via {route} failed: {ref['error'][:200]}; "
                               f"history clause skipped for this request")
@@ -1323,8 +1450,8 @@ class Runner:
             fcol, fnoc = _rendering(**ref['col']), _rendering(**ref['noc'])
             if col.exc and fcol.exc and col.exc.split(':')[0] == fcol.exc.split(':')[0]:
                 self.diags.append(f"rendering {name} via {route} raises {col.exc[:200]} (also on a fresh object)")
-            res += clause_4(name, has_enum, spec, route, 'coloured', col, fcol)
-            res += clause_4(name, has_enum, spec, route, 'no_color', noc, fnoc)
+            res += clause_4(name, has_enum, spec, route, 'coloured', col, fcol, changes)
+            res += clause_4(name, has_enum, spec, route, 'no_color', noc, fnoc, changes)
         self.add(res, (spec, name, route, schedule))
         return res
 
@@ -1374,6 +1501,14 @@ class Runner:
                                         for n in GROUP_MEMBERS[GROUP_OF[name][0]]):
                 self.hits['table-sharing-format-object-with-rendered-table'] += 1
             self.rendered_names.add(name)
+            if name in self.changed_after_render:
+                self.hits['table-format-changed-between-renderings'] += 1
+            st_ = self.limited_state(name)
+            if st_ is not None:
+                if st_[2]:
+                    self.hits['columns-kept-fmt-change-reveals-wider-hidden-record'] += 1
+                st_[1] = shown_records(len(_LIM_RECORDS), st_[0])
+                st_[2] = False
             self.check(name, conf, spec, route, schedule)
         elif op == 'drop':
             _, slot = st
@@ -1388,6 +1523,29 @@ class Runner:
                 akc.set_global_colors_config(self.slots[slot][0])
                 self.global_spec = self.slots[slot][1]
                 self.hits['global-config-replaced'] += 1
+        elif op in ('fmt', 'rmcols'):
+            _, name, arg = st
+            if OBJECTS[name][0] != 'table':
+                raise ValueError(f"format change of an object which is not a table: {st!r}")
+            change = [op, arg]
+            handle = self.obj(name)
+            st_ = self.limited_state(name)
+            exc = apply_change(handle, change)
+            if exc is not None:
+                self.diags.append(f"format change {change!r} of {name} raises {exc[:200]}")
+            self.changes.setdefault(name, []).append(change)
+            if name in self.rendered_names:
+                self.changed_after_render.add(name)
+                if op == 'rmcols':
+                    self.hits['columns-removed-between-renderings'] += 1
+            if st_ is not None:
+                if op == 'fmt' and arg.split(';')[0].strip() == '':
+                    # the columns are kept: which records will the next rendering show in addition?
+                    st_[0] = limits_after(arg, st_[0])
+                    st_[2] = st_[1] is not None and wider_record_revealed(
+                        LIMITED[name][3], st_[1], shown_records(len(_LIM_RECORDS), st_[0]))
+                else:
+                    self.shown[name] = None          # other columns: not followed any further
         elif op == 'churn':
             self.churn(*st[1:])
         elif op == 'churn_nocolor':
@@ -1600,7 +1758,7 @@ def gen_history(rng, srng=None):
     n = rng.randint(3, 12)
     steps = []
     alive = set()
-    pool = rng.sample(OBJECT_NAMES, 2) + [rng.choice(ENUM_OBJECTS)]
+    pool = rng.sample(RANDOM_POOL, 2) + [rng.choice(ENUM_OBJECTS)]
     if rng.random() < 0.5:
         pool.append(rng.choice(ENUM_OBJECTS))
     if rng.random() < 0.15:
@@ -1680,6 +1838,78 @@ def shared_format_histories(tier):
     return out
 
 
+def format_change_histories(tier):
+    """(D) the format of a table is changed between its renderings: render, change, render (, change, render).
+    Limited tables (a records limit hides records with longer values): every new fmt of their catalogue -
+    columns kept / all columns / named columns, limits widened, narrowed, lifted, kept - then every one
+    followed by a second change; every other table: every generic fmt; removed columns."""
+    out = []
+    specs = [{'init': {}, 'no_color': False},
+             {'init': {'TEXT': 'CYAN', 'RECORD.NUMBER': '123', 'TABLE.BORDER': 'g7'}, 'no_color': False}]
+
+    def hist(name, changes):
+        k = len(out)
+        spec = specs[k % 2]
+        route = ROUTES['table'][k % len(ROUTES['table'])]
+        steps = [['conf', 0, spec]] + ([['global', 0]] if route == 'global' else []) + [['render', 0, name, route]]
+        for ch in changes:
+            steps += [[ch[0], name, ch[1]], ['render', 0, name, route]]
+        out.append([with_schedule(st, SCHEDULES[(k + j) % len(SCHEDULES)]) for j, st in enumerate(steps)])
+
+    for name in LIMITED:
+        for f1 in fmts_of(name):
+            hist(name, [['fmt', f1]])
+            for f2 in (SECOND_FMTS if tier == 'quick' else fmts_of(name)):
+                hist(name, [['fmt', f1], ['fmt', f2]])
+        for f in _LIM_FIELDS:
+            hist(name, [['rmcols', [f]], ['fmt', ';*']])
+            hist(name, [['fmt', ';3:1'], ['rmcols', [f]]])
+    for name in TABLE_NAMES:
+        if name not in LIMITED:
+            for f1 in (GENERIC_FMTS_QUICK if tier == 'quick' else GENERIC_FMTS):
+                hist(name, [['fmt', f1]])
+    return out
+
+
+def gen_format_history(rng):
+    """(D) a seeded random history of 4..12 steps over 2 config slots, a limited table and one more table:
+    new config / render / fmt change / remove a column (once per table) / drop config; ends with a rendering"""
+    pool = [rng.choice(sorted(LIMITED)), rng.choice(TABLE_NAMES)]
+    n = rng.randint(3, 10)
+    steps = []
+    alive = set()
+    removed = set()
+    while len(steps) < n:
+        r = rng.random()
+        if not alive or r < 0.12:
+            slot = rng.randrange(2)
+            steps.append(['conf', slot, gen_spec(rng)])
+            alive.add(slot)
+        elif r < 0.50:
+            name = rng.choice(pool)
+            step = ['render', rng.choice(sorted(alive)), name, rng.choice(['conf', 'palette_obj', 'palette_cls', 'alt_obj'])]
+            if rng.random() < 0.5:
+                step = with_schedule(step, gen_schedule(rng))
+            steps.append(step)
+        elif r < 0.86:
+            name = pool[0] if rng.random() < 0.7 else pool[1]
+            steps.append(['fmt', name, rng.choice(fmts_of(name))])
+        elif r < 0.92:
+            name = rng.choice(pool)
+            if name in LIMITED and name not in removed:
+                removed.add(name)
+                steps.append(['rmcols', name, [rng.choice(['id', 'status'])]])    # 'name' is in every named fmt
+        else:
+            slot = rng.choice(sorted(alive))
+            steps.append(['drop', slot])
+            alive.discard(slot)
+    if not alive:
+        steps.append(['conf', 0, gen_spec(rng)])
+        alive.add(0)
+    steps.append(['render', sorted(alive)[0], pool[0], 'conf'])
+    return steps
+
+
 def all_tasks(tier, seed):
     tasks = []
     # (A) exhaustive grid: every object x every grid configuration x every route
@@ -1717,7 +1947,15 @@ def all_tasks(tier, seed):
     srng = random.Random(seed * 7919 + 11)
     for _ in range(n_rand):
         tasks.append(gen_history(rng, srng))
-    return tasks, {'grid': n_grid, 'curated': n_curated, 'random': n_rand, 'grid_configs': len(specs)}
+    # (D) format changes between the renderings of a table
+    fmt_tasks = format_change_histories(tier)
+    frng = random.Random(seed * 7919 + 12)
+    n_fmt_rand = 150 if tier == 'quick' else 1500
+    for _ in range(n_fmt_rand):
+        fmt_tasks.append(gen_format_history(frng))
+    tasks.extend(fmt_tasks)
+    return tasks, {'grid': n_grid, 'curated': n_curated, 'random': n_rand, 'grid_configs': len(specs),
+                   'format_change': len(fmt_tasks) - n_fmt_rand, 'format_change_random': n_fmt_rand}
 
 
 def _work(chunk, server=None):
@@ -1762,6 +2000,9 @@ REQUIRED_REACH = [
     'paused-iteration-resumed-after-another-iteration',
     'two-iterations-of-one-result-interleaved',
     'result-iterated-before-and-after-whole-text',
+    'table-format-changed-between-renderings',
+    'columns-kept-fmt-change-reveals-wider-hidden-record',
+    'columns-removed-between-renderings',
 ]
 
 
